@@ -1,6 +1,6 @@
 SPECIFICATION TSpec
 CONSTANTS
   Inputs = {}
-  Sched = <<>>
+  Sched <- NoSched
   ZeroThroughputFix = TRUE
 CHECK_DEADLOCK FALSE
